@@ -61,15 +61,26 @@ def build(ctx, pkg):
 
 # ------------------------------------------------------------------ scenario
 class Scenario:
-    def __init__(self, name, writer, mode, sizes, tmp):
+    """One child process = several successive real saves of one writer.
+
+    pre: if given, a FIRST child runs these saves on the same scratch root and
+    is killed (SIGKILL, by its own watcher) in the middle of the last of them;
+    the scenario proper then starts from whatever that child left behind (its
+    left-over temporary file in particular): the crash-leftover sequence."""
+
+    def __init__(self, name, writer, mode, sizes, tmp, pre=None):
         self.name, self.writer, self.mode, self.sizes, self.tmp = name, writer, mode, sizes, tmp
+        self.pre = pre
         self.events = None     # model events (dicts)
         self.src = None        # per event: strace line (str) or marker
         self.rows = None       # harness result rows
         self.info = {}
 
     def desc(self):
-        return {"name": self.name, "writer": self.writer, "mode": self.mode, "sizes": self.sizes, "tmp": self.tmp}
+        d = {"name": self.name, "writer": self.writer, "mode": self.mode, "sizes": self.sizes, "tmp": self.tmp}
+        if self.pre is not None:
+            d["pre"] = self.pre
+        return d
 
 
 def run_child(ctx, bins, sc, tag=""):
@@ -94,17 +105,55 @@ def run_child(ctx, bins, sc, tag=""):
     else:
         tmpdir = os.path.join(root, "tmp")
         os.makedirs(tmpdir)
-    spec = {"mode": sc.mode, "writer": sc.writer, "root": root, "out": out, "sizes": sc.sizes, "seed": ctx.seed,
-            "maxreads": 50000 if ctx.quick else 150000}
     env = dict(os.environ)
-    env.update({"ZZC14_SPEC": json.dumps(spec), "TMPDIR": tmpdir})
-    cmd = [bins[PKG[sc.writer]], "-test.run", "^TestZZVerifC14Child$", "-test.count=1", "-test.timeout=10m"]
-    if sc.mode == "trace":
-        cmd = ["strace", "-f", "--seccomp-bpf", "-s", "16", "-o", log, "-e", "trace=" + SYSCALLS] + cmd
+    env["TMPDIR"] = tmpdir
+    binary = bins[PKG[sc.writer]]
+    args = ["-test.run", "^TestZZVerifC14Child$", "-test.count=1", "-test.timeout=10m"]
+
+    def spec(mode, sizes, resume, gen):
+        return json.dumps({"mode": mode, "writer": sc.writer, "root": root, "out": out, "sizes": sizes,
+                           "seed": ctx.seed, "maxreads": 50000 if ctx.quick else 150000,
+                           "resume": resume, "gen": gen})
+
+    pre_files, pre_dirs = [], []
     try:
-        p = subprocess.run(cmd, cwd=rundir, env=env, capture_output=True, text=True, timeout=600)
-    except subprocess.TimeoutExpired:
-        raise vlib.Inconclusive("child timeout in scenario %s" % sc.name)
+        if sc.pre is not None:
+            # The crash-leftover sequence: a first child is killed in the
+            # middle of its last save.  If the kill came too late (nothing
+            # left behind) the attempt is repeated on a clean root.
+            for attempt in range(6):
+                env["ZZC14_SPEC"] = spec("crash", sc.pre, False, 0)
+                try:
+                    p = subprocess.run([binary] + args, cwd=rundir, env=env, capture_output=True, text=True, timeout=300)
+                except subprocess.TimeoutExpired:
+                    raise vlib.Inconclusive("crash child timeout in scenario %s" % sc.name)
+                pre_files, pre_dirs = [], []
+                for top in sorted({root, tmpdir}):
+                    for dp, _, fns in os.walk(top):
+                        pre_dirs.append(dp)
+                        for fn in fns:
+                            fp = os.path.join(dp, fn)
+                            pre_files.append((fp, os.path.getsize(fp)))
+                if p.returncode == -9 and len(pre_files) >= 2:
+                    break
+                if p.returncode not in (0, -9):
+                    raise vlib.Inconclusive("crash child of scenario %s failed (rc=%s):\n%s" % (
+                        sc.name, p.returncode, (p.stdout + p.stderr)[-2000:]))
+                for top in (root, tmpdir):
+                    shutil.rmtree(top, ignore_errors=True)
+                    os.makedirs(top)
+                if os.path.exists(out):
+                    os.unlink(out)
+            else:
+                raise vlib.Inconclusive("scenario %s: the killed child never left anything behind" % sc.name)
+        env["ZZC14_SPEC"] = spec(sc.mode, sc.sizes, sc.pre is not None, 1 if sc.pre is not None else 0)
+        cmd = [binary] + args
+        if sc.mode == "trace":
+            cmd = ["strace", "-f", "--seccomp-bpf", "-s", "16", "-o", log, "-e", "trace=" + SYSCALLS] + cmd
+        try:
+            p = subprocess.run(cmd, cwd=rundir, env=env, capture_output=True, text=True, timeout=600)
+        except subprocess.TimeoutExpired:
+            raise vlib.Inconclusive("child timeout in scenario %s" % sc.name)
     finally:
         if shm:
             shutil.rmtree(shm, ignore_errors=True)
@@ -112,7 +161,8 @@ def run_child(ctx, bins, sc, tag=""):
     if p.returncode != 0 or not sc.rows or sc.rows[-1].get("ev") != "done":
         raise vlib.Inconclusive("child of scenario %s did not complete (rc=%s):\n%s" % (
             sc.name, p.returncode, (p.stdout + p.stderr)[-2500:]))
-    sc.info = {"root": root, "tmpdir": tmpdir, "cwd": rundir, "dst": sc.rows[0]["dst"]}
+    sc.info = {"root": root, "tmpdir": tmpdir, "cwd": rundir, "dst": sc.rows[0]["dst"], "preexisting": pre_files,
+               "predirs": pre_dirs}
     # The big files are not needed any more.
     shutil.rmtree(root, ignore_errors=True)
     return log if sc.mode == "trace" else None
@@ -227,6 +277,21 @@ def to_events(sc, log):
 
     def P(p):
         return "DST" if p == dst else p
+
+    # What an earlier, killed child left behind: files the model must know
+    # about, with content of unknown origin (written while nothing is armed:
+    # v = -1), so that re-using one of them without truncation is seen.
+    dirs.update(info.get("predirs", []))
+    for i, (fp, size) in enumerate(info.get("preexisting", [])):
+        fd = 1000000 + i
+        note = "left behind by the killed child: %s (%d bytes)" % (fp, size)
+        events.append(ev("open", fd=fd, p=P(fp), fl=dict(FL0, creat=True)))
+        src.append(note)
+        if size:
+            events.append(ev("write", fd=fd, n=size))
+            src.append(note)
+        events.append(ev("close", fd=fd))
+        src.append(note)
 
     def resolve(dirfd, p):
         if not os.path.isabs(p):
@@ -597,22 +662,47 @@ def mutants(sc):
 def plan(ctx):
     rng = random.Random(ctx.seed)
     j = lambda lo, hi: rng.randint(lo, hi)
+
+    def fail(kind, lo, hi):
+        """A filter refresh that fails after about n good bytes; kind 0: binary
+        character, 1: Content-Length not honoured, 2: chunked body aborted."""
+        n = j(lo, hi)
+        return -(n - n % 3 + kind)
+
+    def leftovers(suffix, tmps):
+        """The crash-leftover sequences: a child is killed in the middle of a
+        LARGE save; the next child starts from what it left behind and makes
+        SMALLER saves (a re-used, not truncated temporary file shows)."""
+        t = lambda: rng.choice(tmps)
+        return [
+            Scenario("leases-crash" + suffix, "leases", "trace", [-1, 0, 1, 1, -2], t(), pre=[j(40, 400) * KiB, 1]),
+            Scenario("config-crash" + suffix, "config", "trace", [0, j(1, 3000), j(4, 90) * KiB], t(),
+                     pre=[0, j(100, 900) * KiB]),
+            Scenario("filter-crash" + suffix, "filter", "trace", [j(20, 3000), j(4, 60) * KiB, 0, j(20, 900)], t(),
+                     pre=[j(20, 3000), j(100, 900) * KiB]),
+        ]
+
     scs = []
     if ctx.quick:
         scs.append(Scenario("filter-a", "filter", "trace",
-                            [j(20, 4000), j(200, 900) * KiB, -j(7000, 90000), 0, j(20, 90000)], "otherfs"))
-        scs.append(Scenario("filter-b", "filter", "trace", [j(1, 3) * MiB, j(20, 400), j(6000, 70000)], "samefs"))
+                            [j(20, 4000), j(200, 900) * KiB, fail(0, 7000, 90000), fail(1, 7000, 200000), 0,
+                             fail(2, 7000, 200000), j(20, 90000)], "otherfs"))
+        scs.append(Scenario("filter-b", "filter", "trace",
+                            [j(1, 3) * MiB, fail(j(1, 2), 7000, 900000), j(20, 400), j(6000, 70000)], "samefs"))
         scs.append(Scenario("config-a", "config", "trace", [0, j(100, 600) * KiB, j(1, 5000), 0], "otherfs"))
         scs.append(Scenario("config-up", "config-upgrade", "trace", [j(0, 200000)], rng.choice(["otherfs", "samefs"])))
         scs.append(Scenario("leases-a", "leases", "trace", [j(0, 300) * KiB, 1, 1, -2, 0, 1], "otherfs"))
         scs.append(Scenario("leases-mig", "leases-migrate", "trace", [j(0, 100000)], rng.choice(["otherfs", "samefs"])))
+        scs += leftovers("", ["otherfs", "samefs"])
         npoll = 200
     else:
         scs.append(Scenario("filter-a", "filter", "trace",
-                            [j(20, 4000), 0, j(1, 9), 32 * MiB, -j(1, 4) * MiB, j(20, 500), j(1, 8) * MiB] +
+                            [j(20, 4000), 0, j(1, 9), 32 * MiB, fail(0, MiB, 4 * MiB), j(20, 500), j(1, 8) * MiB,
+                             fail(1, 7000, 4 * MiB), fail(2, 7000, 4 * MiB)] +
                             [j(-1, 3) * j(1, 200000) for _ in range(13)], "otherfs"))
         scs.append(Scenario("filter-b", "filter", "trace",
-                            [j(8, 24) * MiB, 0, j(100, 900) * KiB, -7000, 64 * KiB, 64 * KiB + 1] +
+                            [j(8, 24) * MiB, 0, j(100, 900) * KiB, fail(1, 7000, 9000), 64 * KiB, fail(2, 20, 7000),
+                             64 * KiB + 1] +
                             [1 << j(3, 20) for _ in range(10)], "samefs"))
         scs.append(Scenario("config-a", "config", "trace",
                             [0, j(1, 5000), 32 * MiB, 0, j(1, 3) * MiB] + [j(0, 2) * j(1, 300000) for _ in range(15)],
@@ -629,6 +719,7 @@ def plan(ctx):
                             [-1] + [rng.choice([1, 1, 1, -2, 0]) for _ in range(20)], "samefs"))
         scs.append(Scenario("leases-c", "leases", "trace", [j(1, 3) * MiB, 1, 0, 1, 1], "samefs"))
         scs.append(Scenario("filter-c", "filter", "trace", [32 * MiB, j(1, 16) * MiB, -32 * MiB, 33 * MiB, 0, 1], "samefs"))
+        scs += leftovers("-a", ["otherfs"]) + leftovers("-b", ["samefs"])
         npoll = 400
     scs.append(Scenario("poll-filter", "filter", "poll",
                         [j(20, 300000) * (-1 if i % 9 == 5 else 1) for i in range(npoll)], "otherfs"))
@@ -737,7 +828,7 @@ def run(ctx):
         bad_save = sc.info["ineffective"]
         if not firsts and not bad_save:
             continue
-        again = Scenario(sc.name, sc.writer, sc.mode, sc.sizes, sc.tmp)
+        again = Scenario(sc.name, sc.writer, sc.mode, sc.sizes, sc.tmp, sc.pre)
         execute(ctx, bins, again, "-again")
         ares, _ = validate(ctx, [again], "again-" + sc.name)
         for i, inv in firsts:
@@ -809,7 +900,7 @@ def run(ctx):
 def replay(ctx, path):
     rec = json.load(open(path))["record"]
     d = rec["scenario"]
-    sc = Scenario(d["name"], d["writer"], d["mode"], d["sizes"], d["tmp"])
+    sc = Scenario(d["name"], d["writer"], d["mode"], d["sizes"], d["tmp"], d.get("pre"))
     bins = {PKG[sc.writer]: build(ctx, PKG[sc.writer])}
     execute(ctx, bins, sc)
     res, _ = validate(ctx, [sc], "replay")
